@@ -4,7 +4,7 @@ PY = {"i1": "1", "i2": "2", "i0": "0", "bT": "True", "bF": "False", "f1": "1.0",
       "f2": "2.0", "abc": "'abc'", "ABC": "'ABC'", "abc!": "'abc!'", "abd": "'abd'", "empty": "''", "none": "None",
       "L12": "[1, 2]", "L12c": "[1, 2.0005]", "L1f2": "[1.0, 2]", "L0": "[]", "T12": "(1, 2)",
       "Labc": "['abc', 'abd']", "LABC": "['ABC', 'abd']", "D_A1": "{'ABC': 1}", "D_a2": "{'abc': 2}", "D_a1": "{'abc': 1}",
-      "huge": "10**400", "T1a": "(1, 'abc')", "S1": "{1}", "S2": "{2}", "S12": "{1, 2}", "Sf": "{1.0, 1.0005}",
+      "huge": "10**400", "T1a": "(1, 'abc')", "T123": "(1, 2, 3)", "L1a": "[1, 'abc']", "S1": "{1}", "S2": "{2}", "S12": "{1, 2}", "Sf": "{1.0, 1.0005}",
       "Sg": "{1.0, 2.0}", "nan": "float('nan')", "inf": "float('inf')",
       "R12": "reversed([2, 1])", "M12": "map(int, ['1', '2'])"}
 FN = {"equal": "assert_equal", "not_equal": "assert_not_equal", "less": "assert_less", "less_equal": "assert_less_equal",
